@@ -3,6 +3,7 @@
      moniv <env> <ccid> <flags> <n> <tid>=<op>*n # <answer>   abstract machine on the real (post-RA) instruction list -/
 import AsmjitVerif.Model.InvokeLower
 import AsmjitVerif.Spec.InvokeMachine
+import AsmjitVerif.Spec.InvokeMachineA64
 import Driver.Common
 open AsmjitVerif.CallConv AsmjitVerif.Invoke AsmjitVerif.InvokeSpec
 namespace Driver.C06I
@@ -12,6 +13,8 @@ def parseEnv : String → Option Env
   | "x86w" => some ⟨.x86, true, false⟩
   | "x64l" => some ⟨.x64, false, false⟩
   | "x64w" => some ⟨.x64, true, false⟩
+  | "a64l" => some ⟨.a64, false, false⟩
+  | "a64d" => some ⟨.a64, false, true⟩
   | _ => none
 
 structure IvLine where
@@ -67,6 +70,16 @@ def ivmStep (ws : List String) : String :=
     match initFuncDetail l.env { ccid := l.ccid, args := l.tids } with
     | .error m => "invoke-err " ++ m
     | .ok (cc, d) =>
+      if l.env.arch == .a64 then
+        match allOps l d with
+        | none => "bad-op"
+        | some ops =>
+          match a64OnBeforeInvoke d (ops.map fun p => p.headD .none) 0 with
+          | .error m => "fin-err " ++ m
+          | .ok (pre, css) =>
+            s!"ok ass={d.argStackSize} css={css} csa=16 | " ++
+              ";".intercalate ((pre ++ [({ name := .call, ops := [.reg 6 0] } : XI)]).map XI.text)
+      else
       match allOps l d with
       | none => "bad-op"
       | some ops =>
@@ -100,6 +113,7 @@ def mnmOf (s : String) : Mnm × Bool :=
     | "mov" => some .mov | "movsx" => some .movsx | "movzx" => some .movzx | "movsxd" => some .movsxd | "lea" => some .lea
     | "movaps" => some .movaps | "movups" => some .movups | "movd" => some .movd | "movq" => some .movq | "movss" => some .movss
     | "movlps" => some .movlps | "and" => some .and_ | "sub" => some .sub | "call" => some .call
+    | "str" => some .str | "ldr" => some .ldr | "blr" => some .call | "strb" => some .strb | "strh" => some .strh
     | _ => none
   match base s with
   | some m => (m, false)
@@ -129,8 +143,9 @@ def wantOf (e : Env) (k : Nat) (tid : Nat) (o : String) (pack : List FuncValue) 
   else if o.startsWith "r" then
     match body.toNat? with
     | some st =>
-      let kv : BitVec 64 := BitVec.ofNat 64 (0x8877665544332211 * (k + 1))
-      let _ := e
+      let kv0 : BitVec 64 := BitVec.ofNat 64 (0x8877665544332211 * (k + 1))
+      -- AArch64: a register of a type up to 32 bits is a w register, initialised with the low 32 bits
+      let kv : BitVec 64 := if e.arch == .a64 && tySize st ≤ 4 then zext32 kv0 else kv0
       -- an explicit pointer for a by-reference parameter is passed as it is
       if pack.any (·.isIndirect) then [.int kv] else [.int (widen (deabstract 8 tid) st kv)]
     | none => [.none]
@@ -153,6 +168,24 @@ def monStep (ws : List String) : String :=
         | .error m => "BAD real code lowered an invoke the rules refuse: " ++ m
         | .ok (_, d) =>
           let pre := insts.takeWhile (·.name != .call)
+          if l.env.arch == .a64 then
+            let rec goA (m : AsmjitVerif.InvokeSpecA64.MA) : List XI → Except String AsmjitVerif.InvokeSpecA64.MA
+              | [] => .ok m
+              | i :: is => match AsmjitVerif.InvokeSpecA64.step m i with
+                | some m' => goA m' is
+                | none => .error i.text
+            match goA {} pre with
+            | .error t => "UNK " ++ t
+            | .ok m =>
+              let wants := (List.range l.tids.length).map fun k =>
+                wantOf l.env k (l.tids.getD k 0) (l.ops.getD k "") (d.args.getD k [])
+              let bad := (List.range l.tids.length).filter fun k =>
+                !(AsmjitVerif.InvokeSpecA64.valueOk m ((d.args.getD k []).headD (.ofType 0)) ((wants.getD k []).headD .none))
+              if !(css ≥ ass && lso ≥ css) then s!"BAD frame call area css={css} does not cover ass={ass} / locals lso={lso}"
+              else if l.flags &&& 1 != 0 && !AsmjitVerif.InvokeSpecA64.localOk m lso then "BAD local overwritten before the call"
+              else if !bad.isEmpty then s!"BAD arg {bad.head!} not at its ABI location with its value"
+              else "OK"
+          else
           -- run, reporting the first instruction the machine does not know
           let rec go (m : M) : List XI → Except String M
             | [] => .ok m
